@@ -108,6 +108,10 @@ private def runSeq (obs : Char → Table → Outcome (List UInt8)) (script : Str
 def opsC16 : List (String × Handler) := [
   ("msg.hash", msgHashHandler),
   ("msg.hash.hasher", msgHashHandler),
+  -- cursors moved / hasher warmed before the decode: `msg_hash_is_cell_hash` says the answer is the same
+  ("msg.hash.moved", fun
+    | t :: _ => msgHashHandler [t]
+    | _ => "bad-op"),
   ("tx.hash", txHashHandler),
   ("tx.hash.hasher", txHashHandler),
   ("tx.seq", fun
